@@ -197,6 +197,12 @@ noncomputable def polyDer : Der F[X] where
 /-- a family over `F`, read as a family of constant polynomials -/
 noncomputable def liftP (G : Fam F) : Fam F[X] := Fam.mapHom (C : F →+* F[X]) G
 
+@[simp] theorem liftP_a (G : Fam F) (n : ℕ) : (liftP G).a n = C (G.a n) := rfl
+@[simp] theorem liftP_b (G : Fam F) (n : ℕ) : (liftP G).b n = C (G.b n) := rfl
+@[simp] theorem liftP_c (G : Fam F) (n : ℕ) : (liftP G).c n = C (G.c n) := rfl
+@[simp] theorem liftP_e (G : Fam F) (n : ℕ) : (liftP G).e n = C (G.e n) := rfl
+@[simp] theorem liftP_p0 (G : Fam F) : (liftP G).p0 = C G.p0 := rfl
+
 theorem liftP_const (G : Fam F) : ConstFam polyDer (liftP G) :=
   ⟨fun n => by simp [polyDer, liftP], fun n => by simp [polyDer, liftP], fun n => by simp [polyDer, liftP],
    fun n => by simp [polyDer, liftP], by simp [polyDer, liftP]⟩
